@@ -29,7 +29,8 @@ VARNAMES = ["x", "y", "z", "s", "d", "w", "t", "u", "l", "v"]
 UNKNOWN = 77                 # id of a name that is no variable of the model ("foo")
 SIG_EXTRA_KW = "Distribution.logd|main-positional:other-keywords-ignored"
 SIG_POST_KW = "Posterior._condition|own-parameter-by-keyword"
-STATE = {"strict": True, "pnamed": False}      # which repair state the implementation is in (probed per run)
+SIG_COLLIDE = "Distribution._condition|keyword-names-attribute-and-variable"
+STATE = {"strict": True, "pnamed": False, "collide_ok": False}      # which repair state the implementation is in (probed per run)
 
 
 def flags():
@@ -93,11 +94,13 @@ def polydist_class(cuqi):
             self._attrs = []
             for i, s in enumerate(spec["slots"]):
                 if s["kind"] == "fixed":
-                    attr, val = attr_name(i), np.array(s["val"])
+                    attr, val = (names[s["attrvar"]] if s.get("attrvar") is not None else attr_name(i)), np.array(s["val"])
                 elif s["kind"] == "unset":
                     attr, val = names[s["var"]], None
                 else:
-                    attr = attr_name(i)
+                    # a callable attribute may carry the name of one of its OWN arguments (scale = lambda scale: 1/scale):
+                    # the keyword then names both the attribute and the callable's argument
+                    attr = names[s["attrvar"]] if s.get("attrvar") is not None else attr_name(i)
                     argn = [names[j] for j in s["args"]]
                     src = "def _f(%s):\n    return _b + %s\n" % (
                         ", ".join(argn), " + ".join("_a[%d]*_S(%s)" % (k, n) for k, n in enumerate(argn)))
@@ -161,7 +164,27 @@ def mk_slot(rng, kind, parents):
             "style": rng.choice(["def", "lambda", "partial", "object"])}
 
 
+def attrs_of(spec):
+    """attribute names of the mutable variables as ids: a variable id where the attribute is named after a variable"""
+    out = []
+    for i, sl in enumerate(spec["slots"]):
+        if sl["kind"] == "unset":
+            out.append(sl["var"])
+        elif sl.get("attrvar") is not None:
+            out.append(sl["attrvar"])
+        else:
+            out.append(ATTR + i)
+    return out
+
+
 def mk_factor(rng, name, dim, slots):
+    taken = set(sl["var"] for sl in slots if sl["kind"] == "unset") | set(sl["attrvar"] for sl in slots if sl.get("attrvar") is not None)
+    for sl in slots:
+        if sl["kind"] == "fn" and "attrvar" not in sl:
+            cand = [a for a in sl["args"] if a not in taken]
+            sl["attrvar"] = rng.choice(cand) if cand and rng.random() < 0.35 else None
+            if sl["attrvar"] is not None:
+                taken.add(sl["attrvar"])
     return {"name": name, "dim": dim, "slots": slots, "c": rng.randint(-9, 9),
             "m": [rng.choice([-3, -2, -1, 1, 2, 3]) for _ in slots], "q": rng.choice([-2, -1, 1, 2]), "r": rng.choice([-2, -1, 1, 2])}
 
@@ -200,6 +223,12 @@ def graph(rng, shape):
         fs = [F(0, [fx()]), F(1, [fn(0)]), F(2, []), F(3, [fn(2, 0, 1), fx(), fn(1, 2)]), F(4, [fn(3, 0), fn(0, 3, 2)])]
     elif shape == "multifirst":         # multi-argument callable FIRST, single-argument ones after it, shared arguments
         fs = [F(2, [fn(1, 0), fn(0), fx(), fn(1)]), F(0, [fx()]), F(1, [fn(0)]), F(3, [fn(0, 2), fn(2, 1, 0)])]
+    elif shape in ("collide", "collide-value"):
+        # an attribute NAMED like a variable (0) that enters the same distribution through ANOTHER attribute: the keyword names
+        # both the attribute (a callable of variable 1 / a plain value) and the conditioning variable
+        other = fn(1) if shape == "collide" else fx()
+        other["attrvar"] = 0
+        fs = [F(2, [fn(0), other, fx()]), F(0, [fx()]), F(1, [fn(0)] if rng.random() < 0.5 else [fx()]), F(3, [fn(2, 1)])]
     elif shape == "indeproot":          # p(d) p(x|d) p(b): an independent root next to a dependent pair
         fs = [F(0, [fx()]), F(1, [fn(0), fx()]), F(2, [fx()])]
     elif shape == "random":
@@ -230,7 +259,7 @@ def graph(rng, shape):
     return fs, 1 + max(f["name"] for f in fs)
 
 
-SHAPES = ["pair", "chain", "hier", "hier5", "mlp2", "mlp3h", "twoarg", "unset", "unset2", "cycle", "indep", "indeproot", "threearg", "multifirst", "single", "random"]
+SHAPES = ["pair", "chain", "hier", "hier5", "mlp2", "mlp3h", "twoarg", "unset", "unset2", "cycle", "indep", "indeproot", "threearg", "multifirst", "collide", "collide-value", "single", "random"]
 PARTS = ["none", "leaves", "allbut1", "all", "roots", "random"]
 STYLES = ["one-kw", "one-pos", "seq-kw", "grouped-mixed"]
 
@@ -554,8 +583,8 @@ def cdist(spec, vals, value, alts=()):
     """mk_dist name dim slots 0 (table with the key of this case; alts = [(override {var: value id}, value)] further entries)"""
     ids = cond_vars_py(spec["slots"]) + [spec["name"]]
     entries = [([vals[j] for j in ids], value)] + [([vals[ov.get(j, j)] for j in ids], v) for ov, v in alts]
-    return "(qmk %s %s %s 0 %s)" % (
-        cvar(spec["name"]), cnat(spec["dim"]), clist([cslot(s) for s in spec["slots"]]),
+    return "(qmka %s %s %s %s 0 %s)" % (
+        cvar(spec["name"]), cnat(spec["dim"]), clist([cslot(s) for s in spec["slots"]]), cvl(attrs_of(spec)),
         clist(["(%s, %s)" % (clist([cqval(k) for k in key]), cq(v)) for key, v in entries]))
 
 
@@ -624,9 +653,33 @@ def witness_posterior_kw(cuqi):
             type(e).__name__, str(e)[:80], total))
 
 
+def witness_collision(cuqi):
+    """y | c, s with an attribute NAMED c that holds a callable of s (and c entering through another attribute); c ~ p, s ~ p.
+    Fixing c and s in two steps must give the joint log-density, as fixing them in one step does."""
+    PD = polydist_class(cuqi)
+    fy = {"name": 2, "dim": 1, "slots": [{"kind": "fn", "args": [0], "a": [2], "b": 1, "attrvar": None},
+                                         {"kind": "fn", "args": [1], "a": [3], "b": -1, "attrvar": 0}], "c": 1, "m": [1, 2], "q": 1, "r": 1}
+    fc = {"name": 0, "dim": 1, "slots": [], "c": 2, "m": [], "q": 1, "r": 1}
+    fs_ = {"name": 1, "dim": 1, "slots": [], "c": 3, "m": [], "q": 1, "r": 1}
+    names = ["c", "s", "y"]
+    vals = {0: [2], 1: [5], 2: [1]}
+    total = sum(factor_value_py(f, vals) for f in (fy, fc, fs_))
+    J = cuqi.distribution.JointDistribution(PD(fy, names), PD(fc, names), PD(fs_, names))
+    arr = lambda j: np.array(vals[j])
+    try:
+        one = num(J.logd(c=arr(0), s=arr(1), y=arr(2)))
+        two = num(J(c=arr(0))(s=arr(1)).logd(arr(2)))
+        rev = num(J(s=arr(1))(c=arr(0)).logd(arr(2)))
+    except Exception as e:
+        return (True, "raised %r" % e)
+    if one == two == rev == total:
+        return (False, "one step, two steps and the reverse order all give %s" % total)
+    return (True, "y ~ D(a=lambda c: .., c=lambda s: ..): joint log-density %s; J.logd(c,s,y) = %s, J(c)(s).logd(y) = %s, J(s)(c).logd(y) = %s" % (total, one, two, rev))
+
+
 def known_witnesses(ctx):
     import cuqi
-    return {SIG_EXTRA_KW: witness_extra_kw(cuqi), SIG_POST_KW: witness_posterior_kw(cuqi)}
+    return {SIG_EXTRA_KW: witness_extra_kw(cuqi), SIG_POST_KW: witness_posterior_kw(cuqi), SIG_COLLIDE: witness_collision(cuqi)}
 
 
 # ------------------------------------------------------------------------------------------
@@ -917,7 +970,7 @@ def slots_case(ctx, cuqi, rng):
 # branching histories: all objects kept alive, earlier objects re-evaluated after every step, several
 # children from the same parent (both orders, identical conditioning repeated)
 # ------------------------------------------------------------------------------------------
-HSHAPES = ["indeproot", "indep", "pair", "chain", "hier", "hier5", "mlp2", "mlp3h", "twoarg", "threearg", "multifirst", "unset", "random"]
+HSHAPES = ["indeproot", "indep", "pair", "chain", "hier", "hier5", "mlp2", "mlp3h", "twoarg", "threearg", "multifirst", "collide", "collide-value", "unset", "random"]
 HKINDS = ["dist", "posterior", "mlp", "joint"]
 HIST_VARIANTS = ("history", "problem-history", "dens-history", "user-posterior")
 
@@ -1492,8 +1545,13 @@ def dens_history_case(ctx, cuqi, rng, nargs):
     cur = 0
     for v in staged:                       # the arguments of the multi-argument callable one per call
         cur = cond(cur, [v], positional=False)
-    refused(cur, ATTR + rng.randrange(len(slots)), staged[0])       # the attribute name of a callable / fixed mutable variable
-    refused(0, ATTR + slots.index([sl for sl in slots if sl["kind"] == "fn"][0]), staged[0])
+    plain = [i for i, sl in enumerate(slots) if sl.get("attrvar") is None]
+    if plain:
+        refused(cur, ATTR + rng.choice(plain), staged[0])          # the attribute name of a callable / fixed mutable variable
+        refused(0, ATTR + plain[0], staged[0])
+    own = [sl["attrvar"] for sl in slots if sl.get("attrvar") is not None and sl["attrvar"] in objs[cur]["bound"]]
+    if own:
+        refused(cur, own[0], own[0])                                # an attribute named after its own (already fixed) argument
     a = cond(0, [staged[0]])               # a second child of the ORIGINAL distribution: same variable again
     b = cond(0, [0])                       # the original as a likelihood
     cond(b, [staged[-1]])                  # and the likelihood conditioned
@@ -1580,6 +1638,9 @@ def run(ctx):
     strict = not still
     pstill, pdetail = witness_posterior_kw(cuqi)
     STATE["strict"], STATE["pnamed"] = strict, not pstill
+    STATE["collide_ok"] = not witness_collision(cuqi)[0]
+    ctx.note("implementation state: a keyword naming both an attribute and a conditioning variable is %s" % (
+        "passed to the callables only" if STATE["collide_ok"] else "ALSO assigned to the attribute (finding)"))
     ctx.note("implementation state: a Posterior %s conditioning on its own parameter by keyword" % ("refuses" if pstill else "accepts"))
     ctx.note("implementation state: Distribution.logd %s keywords next to a positional main parameter" % ("ignores other" if still else "refuses other"))
     reps = ctx.n(2, 8)
@@ -1650,6 +1711,11 @@ def run(ctx):
         bare = "not run: %r" % e
     ctx.note("kinds of intermediate objects reached: %s; bare-Likelihood branch reached by public API: %s" % (
         {k: v for k, v in sorted(kinds_seen.items())}, bare))
+    if not STATE["collide_ok"]:
+        # the class of the open finding: cells whose graph has an attribute named like a variable entering through another attribute
+        for c in cases:
+            if c.impl_fail and ("/collide" in c.cell or "cross-name-collision" in c.cell):
+                c.signature = SIG_COLLIDE
     return Result(cases=cases, rule=RULE,
                   extra={"kinds_reached": kinds_seen, "bare_likelihood_branch_reached": bare, "strict_main_parameter": strict},
                   assumptions=["factor log-densities enter the model as tables of the values of the untouched factors (integer formulas evaluated "
@@ -1735,6 +1801,24 @@ def real_models(cuqi, rng):
     out.append(("scalar-laplace-cauchy-uniform", [q, p, c, u], {"u": round(rng.uniform(0.5, 3.5), 3), "c": rv(1)[0], "p": rv(1)[0], "q": rv(1)[0]},
                 {"u": lambda v: cd.Uniform(0, 4), "c": lambda v: cd.Cauchy(v["u"], 1), "p": lambda v: cd.Laplace(v["c"], 1 / (0.5 + v["u"])),
                  "q": lambda v: cd.Normal(v["p"] - v["c"], 1)}))
+    # 6. hyper-parameters named exactly like the attribute they enter through a NON-identity callable
+    scale = cd.Gamma(2, 1, name="scale")
+    cov = cd.Gamma(3, 2, name="cov")
+    x6 = cd.Laplace(0, lambda scale: 1 / scale, geometry=n, name="x")
+    y6 = cd.Gaussian(lambda x: A @ x, lambda cov: 1 / cov, name="y", geometry=m)
+    prec = cd.Gamma(2, 2, name="prec")
+    g6 = cd.GMRF(np.zeros(n), lambda prec, scale: prec * scale, name="g")
+    out.append(("same-name-hyperparameters", [y6, x6, g6, scale, cov, prec],
+                {"scale": pos(), "cov": pos(), "prec": pos(), "x": rv(n), "y": rv(m), "g": rv(n)},
+                {"scale": lambda v: cd.Gamma(2, 1), "cov": lambda v: cd.Gamma(3, 2), "prec": lambda v: cd.Gamma(2, 2),
+                 "x": lambda v: cd.Laplace(0, 1 / v["scale"], geometry=n), "y": lambda v: cd.Gaussian(A @ v["x"], 1 / v["cov"]),
+                 "g": lambda v: cd.GMRF(np.zeros(n), v["prec"] * v["scale"])}))
+    # 7. cross collision: the variable cov enters through the mean, the ATTRIBUTE cov is a callable of another variable
+    cov7 = cd.Gamma(3, 2, name="cov")
+    s7 = cd.Gamma(2, 1, name="s")
+    y7 = cd.Gaussian(lambda cov: cov * np.ones(m), lambda s: 1 / s, name="y", geometry=m)
+    out.append(("cross-name-collision", [y7, cov7, s7], {"cov": pos(), "s": pos(), "y": rv(m)},
+                {"cov": lambda v: cd.Gamma(3, 2), "s": lambda v: cd.Gamma(2, 1), "y": lambda v: cd.Gaussian(v["cov"] * np.ones(m), 1 / v["s"])}))
     return out
 
 
@@ -1769,7 +1853,8 @@ def real_family_cases(ctx, cuqi, strict):
             fs, fvalue = [], {}
             for d_ in dists:
                 cv = list(d_.get_conditioning_variables())
-                fs.append({"name": idx[d_.name], "dim": int(d_.dim), "slots": [{"kind": "fn", "args": [idx[k] for k in cv]}] if cv else [{"kind": "fixed"}]})
+                fs.append({"name": idx[d_.name], "dim": int(d_.dim), "slots": [{"kind": "fn", "args": [idx[k] for k in cv]}] if cv else [{"kind": "fixed"}],
+                           "attrs": [idx[a] if a in idx else ATTR + k for k, a in enumerate(d_.get_mutable_variables())]})
                 # INDEPENDENT of the conditioning glue: a fresh unconditional distribution with the hyper-parameter values
                 # plugged in by the harness, evaluated with logpdf (no callables, no _condition, no logd)
                 fvalue[idx[d_.name]] = float(np.asarray(concrete[d_.name](asg).logpdf(asg[d_.name])).ravel()[0])
@@ -1800,7 +1885,7 @@ def real_family_cases(ctx, cuqi, strict):
 
                     def cfac(f):
                         key = [vals[j] for j in cond_vars_py(f["slots"])] + [vals[f["name"]]]
-                        return "(fD (fmk %s %s %s [(%s, %s)]))" % (cvar(f["name"]), cnat(f["dim"]), clist([cslot(sl) for sl in f["slots"]]),
+                        return "(fD (fmka %s %s %s %s [(%s, %s)]))" % (cvar(f["name"]), cnat(f["dim"]), clist([cslot(sl) for sl in f["slots"]]), cvl(f["attrs"]),
                                                                   clist([cqval(k) for k in key]), cfloat(fvalue[f["name"]]))
 
                     def fop(op, r):
